@@ -223,6 +223,8 @@ def compare_op(kind, impl, model, rel=1e-9, multi_names=None):
         return deep_close(_floats(pi), [float(x) for x in pm], rel, "info")
     if kind == "distance":
         return deep_close(_floats(pi), [float(x) for x in pm], rel, "distance")
+    if kind == "presets":
+        return deep_close([[b2f(x) for x in r] for r in pi], [[float(x) for x in r] for r in pm[0]], 0.0, "presets")
     if kind == "eq":
         return None if bool(pi) == bool(pm[0]) else "eq impl=%s model=%s" % (pi, pm[0])
     if kind == "named":
